@@ -62,7 +62,7 @@ class C01(Spec):
     lean_module = "NunVerif.Props.C01"
     theorems = ["Nun.C01_refines_map", "Nun.C01_keys_exact", "Nun.C01_refused_write_changes_nothing",
                 "Nun.C01_refused_increment_changes_nothing", "Nun.C01_pin_tombstone_is_empty", "Nun.C01_wf_new"]
-    rule = ("every sequence of length 5 (6) over {set, remove, increment, incremental snapshot, reclaiming snapshot} on one key followed by get / get-safe / keys / increment probes; exhaustive sequences of length L over {set, set-safe, get, get-safe, remove, increment, keys, snapshot+SNAP} x 2 keys x values {'', '7', 'a b'} "
+    rule = ("every value-carrying command form (set, set-safe at versions 0 / 5 / -1, from either session) x 11 value shapes (several words, leading / trailing / double blanks, digits first, multi-byte, `;` inside, empty) read back by get / get-safe from both sessions; every sequence of length 5 (6) over {set, remove, increment, incremental snapshot, reclaiming snapshot} on one key followed by get / get-safe / keys / increment probes; exhaustive sequences of length L over {set, set-safe, get, get-safe, remove, increment, keys, snapshot+SNAP} x 2 keys x values {'', '7', 'a b'} "
             "x patterns {a*, *b, a, *, ''} on an admin session of a strategy-none database, plus seeded random sequences mixing an admin and a token session; "
             "every reply, channel line, state dump and file byte is compared with the Lean model after every step; non-trivial = at least one mutation accepted and one read or refusal; distinct by trace hash")
     assumptions = ["single session at a time (concurrency is C02/C03)", "transport framing is C20"]
@@ -89,6 +89,14 @@ class C01(Spec):
             c = list(pre)
             for x in seq: c += x
             cases.append(c + probes)
+        # every command form that carries a value x every shape of value: what is read back is what was written, byte for byte
+        shapes = ["two words", "three w o r d s", " lead", "trail ", "a  b", "7 8", "-1 x", "h\\xc3\\xa9 x y", "x;y z", "0", ""]
+        forms = ["C 1 set a {v}", "C 1 set-safe a 0 {v}", "C 1 set-safe a 5 {v}", "C 1 set-safe a -1 {v}", "C 2 set-safe a 0 {v}"]
+        for f in forms:
+            for v in shapes:
+                w = f.format(v=v) if v != "" else f.format(v="").rstrip()
+                cases.append(pre + [w, "C 1 get a", "C 2 get-safe a", "C 1 keys"])
+                cases.append(pre + ["C 1 set a old", w, "C 2 get a", w.replace(" 0 ", " 1 "), "C 1 get-safe a"])
         rng = core.XorShift(seed)
         al2 = kvgen.kv_alphabet(keys=("a", "b", "$$s"), values=("", "7", "a b", "-3", "2147483647", "h\\xc3\\xa9"), sess=(1, 2),
                                 incs=(None, 5, -2, 2147483647), patterns=("a*", "*b", "a", "*", "", "$$*", "*$$"))
